@@ -10,6 +10,7 @@ require (
 	github.com/emitter-io/config v1.0.0
 	github.com/emitter-io/emitter v0.0.0
 	github.com/golang/snappy v0.0.4
+	github.com/kelindar/binary v1.0.19
 	github.com/weaveworks/mesh v0.0.0-20191105120815-58dbcc3e8e63
 )
 
@@ -33,7 +34,6 @@ require (
 	github.com/google/flatbuffers v25.2.10+incompatible // indirect
 	github.com/gorilla/websocket v1.5.3 // indirect
 	github.com/kamstrup/intmap v0.5.1 // indirect
-	github.com/kelindar/binary v1.0.19 // indirect
 	github.com/kelindar/process v0.0.0-20170730150328-69a29e249ec3 // indirect
 	github.com/kelindar/rate v1.0.0 // indirect
 	github.com/kelindar/tcp v1.0.0 // indirect
